@@ -151,6 +151,8 @@ def gen_bd_diagram(rng, cfg, max_n=6, allow_empty=True):
     p0, p1 = cfg["pers_range"]
     p = cfg["pixel_size"]
     n = rng.randint(1, max_n)
+    if rng.random() < 0.04:
+        n = rng.choice((31, 32, 33, 63, 64, 65, 127, 128, 129, 256))      # sizes around typical block lengths
     pts = []
     for _ in range(n):
         r = rng.random()
